@@ -6,7 +6,7 @@
 From stdpp Require Import gmap.
 From Coq Require Import NArith ZArith.
 From SkV Require Import Bytes Codec Ledger ChainState Pow Validate ChainDefs HeaderProofs.
-From SkV Require Gen_Params Gen_Functions.
+From SkV Require Gen_Params Gen_Functions PositionProofs MiscProofs.
 
 Theorem C05_header_rules : forall sha scrypt blake verify P s b now s',
   add_block sha scrypt blake verify P s b now = Ok s' -> FV P b ->
@@ -19,6 +19,33 @@ Theorem C05_header_rules : forall sha scrypt blake verify P s b now s',
     construct_evidence sha scrypt blake P s (h_summary (b_header b)) (b_height b) (b_txs b) = Some ev /\
     h_evidence (b_header b) = ev.
 Proof. exact accept_sound_header. Qed.
+
+(* positioned above the horizon, whatever height is declared; and on EITHER side of the horizon an accepted block's
+   height is its parent's plus one *)
+Theorem C05_header_rules_by_position : forall sha scrypt blake verify P s b now s',
+  add_block sha scrypt blake verify P s b now = Ok s' -> PositionProofs.FVpos P s b ->
+  bytes_ltb (block_id sha b) (b_target b) = true /\
+  exists prev cb rest ev,
+    cs_blocks s !! b_prev b = Some prev /\ b_txs b = cb :: rest /\
+    calc_target sha P s (b_height prev + 1) (b_time b) prev = Some (b_target b) /\
+    b_height b = (b_height prev + 1)%N /\ cb_height cb = Some (b_height b) /\
+    (b_time prev < b_time b)%N /\ (b_time b <= now + p_max_future P)%N /\
+    construct_evidence sha scrypt blake P s (h_summary (b_header b)) (b_height b) (b_txs b) = Some ev /\
+    h_evidence (b_header b) = ev.
+Proof.
+  intros sha scrypt blake verify P s b now s' H Hp.
+  exact (accept_sound_header sha scrypt blake verify P s b now s' H
+           (PositionProofs.accepted_position_is_FV sha scrypt blake verify P s b now s' H Hp)).
+Qed.
+
+Theorem C05_height_is_position_everywhere : forall sha scrypt blake verify P s b now s' prev,
+  add_block sha scrypt blake verify P s b now = Ok s' -> cs_blocks s !! b_prev b = Some prev ->
+  b_height b = (b_height prev + 1)%N.
+Proof.
+  intros sha scrypt blake verify P s b now s' prev H Hprev.
+  exact (MiscProofs.accepted_height_is_position sha scrypt blake verify P b s prev
+           (PositionProofs.add_block_in_state_ok sha scrypt blake verify P s b now s' H) Hprev).
+Qed.
 
 Theorem C05_pow_numeric : forall id tg, length id = 32%nat -> length tg = 32%nat -> bytes_wf id -> bytes_wf tg ->
   (bytes_ltb id tg = true <-> (be_dec id < be_dec tg)%N).
@@ -48,6 +75,8 @@ Theorem C05_sampler_total : forall h ser len, ser <> [] ->
 Proof. exact slice_total. Qed.
 
 Print Assumptions C05_header_rules.
+Print Assumptions C05_header_rules_by_position.
+Print Assumptions C05_height_is_position_everywhere.
 Print Assumptions C05_pow_numeric.
 Print Assumptions C05_retarget_spec.
 Print Assumptions C05_bridge_new_target.
